@@ -37,4 +37,8 @@ class GoPanic(Exception):
         if runtime:
             super().__init__(f"runtime error: {value}")
         else:
-            super().__init__(f"panic: {value!r}")
+            shown = value
+            if isinstance(value, tuple) and len(value) == 2 and hasattr(value[0], "name"):
+                # interface value (RType, value)
+                shown = f"{value[0].name}({value[1]!r})"
+            super().__init__(f"panic: {shown}")
